@@ -181,20 +181,17 @@ CLAIMS = {
         design_ref='5/C10',
         note='Modelled not verified: Model/Circuit.v (C09 correspondence). The semantic theorem for substitute on arbitrary implementations is not proved (differential); known findings are genuine deviations from the property as stated and are listed with their keys in known_findings.json.'),
     'C20': dict(
-        technique='Coq proofs about a Gallina transcription of the routing elaboration of def_file.py (wildcards, via arrays, per-layer / per-type '
+        technique='Coq proofs about Gallina transcriptions of the DEF lexer/parser, of every DefTransformer callback and of the routing elaboration of def_file.py (wildcards, via arrays, per-layer / per-type '
                   'listings, ROW arithmetic) with exact correspondence; DEF texts rendered from a generator-owned ground truth as oracle',
-        text='Proof (partial by construction). Proved for ALL routing statements and wire lists of the transcription Model/DefRoute.v: wire_points '
+        text='Proof (full from TEXT). TEXT LEVEL: Model/DefText.v transcribes lark\'s contextual lexer and the LALR parser for def_file.GRAMMAR (accept set per parser position taken from lark\'s table and compared on every run); proved: a text is read as the word list it writes regardless of ignored text (C20_text_as_words, C20_lexer_ignores), every writing of a well-formed tree parses to it (C20_parse_words, C20_parse_print). CALLBACKS: Model/DefElab.v transcribes every DefTransformer callback; proved for every tree: each COMPONENTS / PINS / VIAS / NETS / SPECIALNETS statement is elaborated exactly once into the dict in statement order (last wins on repeated names), rows / tracks / units keep statement order, header and DIEAREA take the last statement, points, nets (pins in written order, attributes) and wires reach the routing model exactly as written (C20_*_exactly_once, C20_net_as_written, C20_rwire_as_written, C20_def_of_tree_listing), restated from text (C20_text_components ...). ROUTING: proved for ALL routing statements and wire lists of the transcription Model/DefRoute.v: wire_points '
              'equals the structural wildcard resolution and each resolved coordinate is the nearest explicitly written value at or before it in its '
              'column (iff); a via sits at the last resolved wire point before it; DO n BY m STEP dx dy yields exactly the n*m positions '
              '(x+i*dx, y+j*dy) (membership iff, count, exact order; NoDup whenever every direction with more than one copy has a non-zero step); '
              'DefNet.wires / .vias list, per layer / via name in order of first use, exactly the segments / placements of all ROUTED wires in file '
              'order (special and regular nets alike; several ROUTED statements accumulate); ROW DO-BY-STEP gives (count, step) for horizontal and '
-             'vertical rows with non-negative step. The transcription is tied to the code by comparing the listings of every generated net and the '
-             'points / vias of every parsed routing statement. Everything else parse() returns (header, UNITS, DIEAREA, ROW, TRACKS, VIAS options, '
-             'COMPONENTS, PINS, net pins / attributes / raw routing statements, section counts and order) is compared with the ground truth of '
-             'generated DEF texts (whitespace, comment and section-order variation).',
+             'vertical rows with non-negative step. Tied to the code by: per-callback correspondence (a recording subclass of DefTransformer: arguments received and value returned vs the Coq callback), per-file correspondence (elab of the tree lark builds = DefFile), text correspondence (parse_def = lark\'s tree or rejection on rendered / mutated / truncated / probe texts), lark\'s scanner tables for the 49 accept sets, the listings of every generated net, and the ground truth of generated DEF texts.',
         design_ref='5/C20',
-        note='NOT modelled: the lark grammar / lexer and the per-statement transformer callbacks (differential only). Modelled not verified: '
+        note='Modelled not verified (correspondence): the lexer / parser / callback transcriptions; which accept set belongs to which parser position is transcribed from lark\'s LALR table, lark\'s table construction itself is not modelled; code points >= 256 are outside the model. Modelled not verified: '
              'DefWire.wire_points/.vias, DefNet.wires/.vias, accumulation of wiring statements, ROW branch (hand transcription of the REPAIRED code, '
              'finding D7). Domain: first point of a routing statement fully specified; coordinates are unsigned in text (grammar), any integer in the '
              'direct-object stream; ROW theorems require step >= 0 and one count = 1 (C20_row_negative_step_refuted). Not covered: pins with several '
